@@ -26,7 +26,8 @@ from ..model import c15_isa
 ID = 'C15'
 LEVEL = 'exploration'
 RULE = ('case = one image assembled from a generated valid program (6800 / 4004 from ISA tables, all three CPUs from self-bootstrapped '
-        'and golden-source instruction pools), disassembled via -binfile and via Intel-hex -hexfile with 1..4 entry addresses '
+        'and golden-source instruction pools), disassembled via -binfile (one file per block, sometimes a block cut into two adjacent files) '
+        'and via Intel-hex -hexfile (p2hex or an independent writer, 1..255 bytes per record) with 1..4 entry addresses '
         '(plain, named, indirect through a vector); distinct = distinct (cpu, instruction shape, load route) whose bytes were '
         'reproduced by the round trip; non-trivial = at least one code area was listed and compared')
 ASSUMPTIONS = ['dasl writes the source text to stdout and nothing else belongs there; the assembler needs only a CPU statement in front of it',
@@ -309,8 +310,18 @@ def build_isa_program(cpu, rng, out):
     enders = c15_isa.m6800_enders() if cpu == '6800' else c15_isa.i4004_enders()
     limit = CPUS[cpu]['limit']
     nrout = rng.randrange(1, 6)
+    # 'wrap': the program uses both ends of the address space - a table at address 0 and a routine whose last
+    # instruction occupies the last address
+    wrap = rng.random() < 0.08
+    if wrap:
+        nrout = max(2, nrout)
     items = []
     routines = []
+    if wrap:
+        d = Ins()
+        d.kind = 'data'
+        d.data = bytes(rng.randrange(256) for _ in range(rng.randrange(1, 7)))
+        items.append(d)
     for r in range(nrout):
         body = rng.randrange(2, 14)
         first = True
@@ -335,8 +346,13 @@ def build_isa_program(cpu, rng, out):
             d.routine = r
             items.append(d)
         routines.append(r)
+    if wrap:
+        if items[-1].kind == 'data':
+            items.pop()
+        stops = [(n, mk) for n, mk in enders if mk(rng)['flow'] == 'stop' and mk(rng)['len'] == 1]
+        items[-1].isa = rng.choice(stops)[1](rng)
     # split into 1..3 blocks at routine boundaries
-    nblocks = min(nrout, rng.choice([1, 1, 1, 2, 2, 3]))
+    nblocks = min(nrout, rng.choice([2, 3] if wrap else [1, 1, 1, 2, 2, 3]))
     cuts = sorted(rng.sample(range(1, nrout), nblocks - 1)) if nblocks > 1 else []
     groups = []
     cur = []
@@ -350,7 +366,7 @@ def build_isa_program(cpu, rng, out):
     # place the blocks: ascending, not overlapping, inside the address space; sometimes flush with its end
     vec = None
     top = limit
-    if cpu == '6800' and rng.random() < 0.25:
+    if cpu == '6800' and rng.random() < 0.25 and not wrap:
         vec = True
         top = 0xfff8
     total = sum(sizes) + 16 * len(groups)
@@ -368,6 +384,9 @@ def build_isa_program(cpu, rng, out):
     else:
         pos = rng.randrange(0, max(1, (top - total) // 256)) * 256 + rng.choice([0, 0xf0, 0xf8, 0xfc])
         pos = min(pos, top - total)
+    if wrap:
+        style = 2
+        pos = 0
     for gi, g in enumerate(groups):
         gap = rng.choice([1, 2, 5, 16]) if gi else 0
         if style == 2 and gi == len(groups) - 1:
@@ -376,8 +395,6 @@ def build_isa_program(cpu, rng, out):
             pos += gap if gi else 0
         orgs.append(pos)
         pos += sizes[gi]
-        if style == 2 and gi < len(groups) - 1:
-            pos += 0
     # addresses
     for org, g in zip(orgs, groups):
         a = org
@@ -415,11 +432,7 @@ def build_isa_program(cpu, rng, out):
             c2 = [j for j in cand if j in rstarts]
             cand = c2 or cand
         if not cand:
-            # no legal target: replace by a one-byte instruction of the same ISA
-            name, mk = forms[0]
-            it.isa = mk(rng)
-            # keep the layout: pad with a second one-byte instruction is impossible without a label, so re-layout
-            return None
+            return None          # no legal target in this layout: the caller draws another program
         it.tidx = rng.choice(cand)
     for n, it in enumerate(items):
         if it.kind == 'ins':
@@ -449,7 +462,7 @@ def build_isa_program(cpu, rng, out):
             g.append(len(items) - 1)
             vectors.append((base + 2 * k, j))
         blocks.append((base, g))
-    return blocks, items, vectors
+    return blocks, items, vectors, {'wrap': wrap}
 
 
 def gold_templates(cpu):
@@ -482,8 +495,10 @@ def gold_templates(cpu):
             if mn == 'endexpect':
                 skipping = max(0, skipping - 1)
                 continue
-            if skipping or mn in SKIP_GOLD or mn.split('.')[0] in SKIP_GOLD:
+            if skipping:
                 continue
+            if (mn in SKIP_GOLD or mn.split('.')[0] in SKIP_GOLD) and not (mn == 'set' and cpu == '87C00' and not m):
+                continue          # (SET without a label is the TLCS-870 bit instruction, not the symbol definition)
             ops = parts[1].strip() if len(parts) > 1 else ''
             has_t = False
             if ops:
@@ -600,6 +615,10 @@ def build_template_program(cpu, rng, tmpls):
     ffpage = cpu == '87C00' and rng.random() < 0.15
     if ffpage:
         nrout = 1
+    # 'wrap' as in the ISA programs (not for the 4004: moving a block changes which page-relative jumps are legal)
+    wrap = cpu != '4004' and not ffpage and rng.random() < 0.08
+    if wrap:
+        nrout = max(2, nrout)
     items = []
     for r in range(nrout):
         body = rng.randrange(2, 14)
@@ -628,6 +647,11 @@ def build_template_program(cpu, rng, tmpls):
             d.data = bytes(rng.randrange(256) for _ in range(rng.randrange(1, 7)))
             d.routine = r
             items.append(d)
+    if wrap:
+        if items[-1].kind == 'data':
+            items.pop()
+        etext = rng.choice([e for e, _ in c['enders'] if '{T}' not in e])       # RTS/RTI, RET/RETI: one byte
+        items[-1].mn, items[-1].text, items[-1].absolute, items[-1].near = etext, etext, False, False
     starts = [i for i, it in enumerate(items) if it.kind == 'ins']
     rstarts = [i for i in starts if items[i].first]
     for pos, i in enumerate(starts):
@@ -643,7 +667,7 @@ def build_template_program(cpu, rng, tmpls):
         if it.kind == 'data':
             it.text = data_statement(cpu, it.data)
     # blocks at routine boundaries
-    nblocks = min(nrout, rng.choice([1, 1, 1, 2, 2, 3]))
+    nblocks = min(nrout, rng.choice([2, 3] if wrap else [1, 1, 1, 2, 2, 3]))
     cuts = sorted(rng.sample(range(1, nrout), nblocks - 1)) if nblocks > 1 else []
     groups, cur = [], []
     for i, it in enumerate(items):
@@ -653,7 +677,7 @@ def build_template_program(cpu, rng, tmpls):
         cur.append(i)
     groups.append(cur)
     limit = c['limit']
-    vec = bool(c['vectors']) and rng.random() < 0.25 and not ffpage
+    vec = bool(c['vectors']) and rng.random() < 0.25 and not ffpage and not wrap
     top = (min(c['vectors']) & ~0xff) if vec else limit
     if ffpage:
         base = 0xff00 + rng.choice([0, 0x10, 0x40])
@@ -661,16 +685,30 @@ def build_template_program(cpu, rng, tmpls):
         # keep a block inside few pages so that page-relative jumps find their targets
         base = rng.randrange(0, (top - 0x200 * len(groups)) // 0x100) * 0x100
     else:
-        base = rng.randrange(0, top - 0x200 * len(groups) - 0x100)
+        base = rng.randrange(0x10 if wrap else 0, top - 0x200 * len(groups) - 0x100 - (0x300 if wrap else 0))
         if rng.random() < 0.3:
             base &= ~0xff
+            base = max(base, 0x100) if wrap else base
     orgs = []
     pos = base
     for g in groups:
         orgs.append(pos)
         # upper bound of the block size: no instruction of the three ISAs is longer than 5 bytes
         pos += sum(5 if items[i].kind == 'ins' else len(items[i].data) for i in g) + rng.choice([1, 7, 0x40])
+    meta = {'wrap': wrap}
+    if wrap:
+        # provisional place of the last block; run_case moves it so that it ends at the last address
+        orgs[-1] = limit - 0x300
+        meta['flush'] = len(orgs) - 1
     blocks = list(zip(orgs, groups))
+    if wrap:
+        d = Ins()
+        d.kind = 'data'
+        d.data = bytes(rng.randrange(256) for _ in range(rng.randrange(1, 7)))
+        d.label = 'xd_%d' % len(items)
+        d.text = data_statement(cpu, d.data)
+        items.append(d)
+        blocks.append((0, [len(items) - 1]))
     vectors = []
     if vec:
         g = []
@@ -688,7 +726,7 @@ def build_template_program(cpu, rng, tmpls):
         for va, j, idx in vectors:
             blocks.append((va, [idx]))
         vectors = [(va, j) for va, j, idx in vectors]
-    if cpu == '87C00' and not ffpage:
+    if cpu == '87C00' and not ffpage and not wrap:
         # CALLV n goes through the word at $FFC0+2n: give some of them a real routine to go to
         seen = set()
         for it in list(items):
@@ -703,7 +741,7 @@ def build_template_program(cpu, rng, tmpls):
                 d.tidx = rng.choice(rstarts)
                 items.append(d)
                 blocks.append((0xffc0 + 2 * n, [len(items) - 1]))
-    return blocks, items, vectors
+    return blocks, items, vectors, meta
 
 
 # ---------------------------------------------------------------------------
@@ -800,8 +838,26 @@ def run_case(case, ctx):
             out.inconc('generator-%s-%s: fewer than 3 usable instruction templates' % (cpu, srcname))
             return
         built = build_template_program(cpu, rng, pool)
-    blocks, items, vectors = built
+    blocks, items, vectors, meta = built
     a, src = assemble_program(cpu, ctx, blocks, items, include, out)
+    if a is not None and meta.get('flush') is not None:
+        # second placement: the last block is moved so that its last byte is the last address of the CPU
+        try:
+            m0 = {}
+            for (hdr, seg), m in pfile.image(pfile.parse(a.p)).items():
+                if seg == 1:
+                    m0.update(m)
+            prov = blocks[meta['flush']][0]
+            size = 0
+            while (prov + size) in m0:
+                size += 1
+            if 0 < size < 0x300:
+                blocks[meta['flush']] = (c['limit'] - size, blocks[meta['flush']][1])
+                a, src = assemble_program(cpu, ctx, blocks, items, include, out)
+        except pfile.FormatError:
+            pass
+    if meta.get('wrap'):
+        out.obs['programs_using_both_ends_of_the_address_space'] += 1
     out.files['prog.asm'] = src.encode('latin-1')
     if a is None:
         if not out.inconclusive:
@@ -891,12 +947,26 @@ def run_case(case, ctx):
             k += 1
     entries = entries[:4]
     rng.shuffle(entries)
+    out.sample.update(entries=[e for e, _ in entries], blocks=['%X+%d' % (s, len(d)) for s, d in runs], instructions=len(gt),
+                      first_statements=[it.text.replace('{T}', items[it.tidx].label if it.tidx is not None else '') for it in items[:6]])
 
     # ---- 3. load routes
     for route in ('bin', 'hex'):
         args = ['-cpu', rng.choice(c['dasl'])]
+        seams = []
         if route == 'bin':
-            for n, (s, d) in enumerate(runs):
+            parts = list(runs)
+            if rng.random() < 0.3:
+                # one contiguous run delivered as two adjacent files (two ROMs): the same image
+                cand = [k for k, (s, d) in enumerate(parts) if len(d) >= 2]
+                if cand:
+                    k = rng.choice(cand)
+                    s, d = parts[k]
+                    cut = rng.randrange(1, len(d))
+                    parts[k:k + 1] = [(s, d[:cut]), (s + cut, d[cut:])]
+                    seams.append(s + cut)
+                    out.obs['images_split_into_adjacent_files'] += 1
+            for n, (s, d) in enumerate(parts):
                 ctx.write('img%d.bin' % n, d)
                 args += ['-binfile', 'img%d.bin@%s' % (n, ('%d' % s) if rng.random() < 0.5 else ('0x%x' % s))]
         else:
@@ -917,11 +987,11 @@ def run_case(case, ctx):
             args += ['-entryaddress', arg]
         if lower:
             args += ['-h']
-        judge(ctx, cpu, tag + ' ' + route, route, args, entries, mem, gt, items, lower)
+        judge(ctx, cpu, tag + ' ' + route, route, args, entries, mem, gt, items, lower, seams)
     out.nontrivial = out.obs.get('areas_code', 0) > 0
 
 
-def judge(ctx, cpu, tag, route, args, entries, mem, gt, items, lower):
+def judge(ctx, cpu, tag, route, args, entries, mem, gt, items, lower, seams=()):
     out = ctx.out
     c = CPUS[cpu]
     r, text = run_dasl(ctx, args, 'dasl.%s.out' % route)
@@ -963,6 +1033,7 @@ def judge(ctx, cpu, tag, route, args, entries, mem, gt, items, lower):
         return
     # ---- areas: disjoint, inside the image
     spans = []
+    area_findings = []
     ok_areas = True
     for s, e, kind in areas:
         out.obs['areas_' + kind] += 1
@@ -972,13 +1043,13 @@ def judge(ctx, cpu, tag, route, args, entries, mem, gt, items, lower):
             continue
         missing = [x for x in range(s, e + 1) if x not in mem]
         if missing:
-            out.violate('areas:%s:%s-area-outside-image' % (cpu, kind),
-                        '%s: %s lists %s area %X...%X but address %X is not part of the loaded image' % (tag, cmd, kind, s, e, missing[0]))
+            area_findings.append(('areas:%s:%s-area-outside-image' % (cpu, kind), missing[0],
+                                  '%s: %s lists %s area %X...%X but address %X is not part of the loaded image' % (tag, cmd, kind, s, e, missing[0])))
             ok_areas = False
         for s2, e2, k2 in spans:
             if s <= e2 and s2 <= e:
-                out.violate('areas:%s:overlap-%s' % (cpu, '-'.join(sorted([kind, k2]))),
-                            '%s: %s lists overlapping areas %X...%X (%s) and %X...%X (%s)' % (tag, cmd, s2, e2, k2, s, e, kind))
+                area_findings.append(('areas:%s:overlap-%s' % (cpu, '-'.join(sorted([kind, k2]))), max(s, s2),
+                                      '%s: %s lists overlapping areas %X...%X (%s) and %X...%X (%s)' % (tag, cmd, s2, e2, k2, s, e, kind)))
                 ok_areas = False
         spans.append((s, e, kind))
     # every source line must lie in a listed area and the lines must tile the areas (sanity of the attribution only)
@@ -992,6 +1063,8 @@ def judge(ctx, cpu, tag, route, args, entries, mem, gt, items, lower):
     if not attribution_ok:
         out.obs['listing_and_area_list_disagree'] += 1
     if not spans:
+        for key, x, msg in area_findings:
+            out.violate(key, msg)
         out.obs['runs_without_any_area'] += 1
         return
     # ---- ground truth classification of the lines
@@ -1018,26 +1091,58 @@ def judge(ctx, cpu, tag, route, args, entries, mem, gt, items, lower):
             culprit[d.no] = prev_gt
             out.obs['lines_outside_the_programs_instructions'] += 1
 
+    def load_key(d):
+        """the hex dump of the line differs from the image at that address: dasl did not see the bytes that were loaded"""
+        if all(mem.get(d.addr + k) == b for k, b in enumerate(d.dump)):
+            return None
+        if any(d.addr < x < d.addr + d.n for x in seams):
+            return 'load:%s:instruction-across-two-adjacent-files-read-wrongly' % route
+        return 'load:%s:dasl-works-on-other-bytes-than-the-loaded-image' % route
+
     def stray_key(d):
         p = culprit.get(d.no)
+        if p is None:
+            first = min((y for y in lines if block_of[y.no] == block_of[d.no]), key=lambda y: y.addr)
+            if first.addr == 0 and (c['limit'] - 1) in gt and any(y.kind == 'gt' and y.addr + y.n == c['limit'] - 1 for y in lines):
+                # an instruction of the program is followed by the one at the last address; dasl went to address 0 instead
+                return 'successor:%s:last-address-of-memory-taken-for-0' % cpu
         if p is not None:
             return 'overtrace:%s:continues-after:%s' % (cpu, shape(cpu, gt[p.addr].text.replace('{T}', 'lab_0000')))
         return 'overtrace:%s:origin-unknown' % cpu
 
+    for key, x, msg in area_findings:
+        cover = [y for y in lines if y.addr <= x < y.addr + y.n and y.kind == 'stray']
+        if cover:
+            # dasl was decoding something that is not an instruction of the program: name what sent it there
+            key, msg = stray_key(cover[0]), msg + '; line there: %r' % cover[0].text
+        out.violate(key, msg)
     names = {}
+    vector_names = set()
     for arg, form in entries:
         mo = re.match(r'^(?:\((\w+)[^)]*\)|(\w+)),(ent_\d+)$', arg)
         if mo:
             names[mo.group(3)] = mo.group(1) or mo.group(2)
+            if mo.group(1):
+                vector_names.add(mo.group(3))
 
     def undefined_label_cause(d):
         """an undefined-symbol error on a line of the program: why is the label it refers to not defined?"""
         mo = LABEL_RE.search(d.text)
-        if not mo:
-            return None
-        try:
-            x = int(mo.group(0).split('_')[1], 16)
-        except ValueError:
+        x = None
+        if mo:
+            try:
+                x = int(mo.group(0).split('_')[1], 16)
+            except ValueError:
+                return None
+        else:
+            mo = re.search(r'\bent_\d+', d.text.split(';')[0])
+            if mo and mo.group(0) in names:
+                x = parse_number(names[mo.group(0)])
+                if mo.group(0) in vector_names:
+                    # the name of an indirect entry stands for the address found in the vector
+                    w = [mem.get(x), mem.get(x + 1)]
+                    x = None if None in w else ((w[0] << 8) | w[1]) if c['wordmsb'] else ((w[1] << 8) | w[0])
+        if x is None:
             return None
         at = [y for y in lines if y.addr <= x < y.addr + y.n]
         if not at:
@@ -1091,7 +1196,9 @@ def judge(ctx, cpu, tag, route, args, entries, mem, gt, items, lower):
                 blocks_with_error.add(block_of[d.no])
             if d is not None:
                 lost = undefined_label_cause(d) if num == '1010' else None
-                if lost is not None:
+                if load_key(d):
+                    key = load_key(d)
+                elif lost is not None:
                     key = lost
                 elif d.kind == 'stray':
                     key = stray_key(d)
@@ -1117,10 +1224,12 @@ def judge(ctx, cpu, tag, route, args, entries, mem, gt, items, lower):
                 if cls.startswith('indirect-address'):
                     key = 'stdout:not-a-source-line:indirect-address'       # written by das.c for every CPU
                 mo = re.search(r'opcode 0x[0-9A-Fa-f]+ @ ([0-9A-Fa-f]+)', raw)
-                if mo:
-                    dd = [x for x in lines if x.addr == int(mo.group(1), 16)]
-                    if dd and dd[0].kind == 'stray':
-                        key = stray_key(dd[0])
+                if mo and int(mo.group(1), 16) not in gt:
+                    # dasl looked for an instruction where the program has none: who sent it there?
+                    xa = int(mo.group(1), 16)
+                    refs = [y for y in lines if y.kind == 'stray' and re.search(r'_%04X(?![0-9A-Fa-f])' % xa, y.text, re.I)]
+                    cover = [y for y in lines if y.addr <= xa < y.addr + y.n and y.kind == 'stray']
+                    key = stray_key((refs or cover)[0]) if (refs or cover) else 'overtrace:%s:origin-unknown' % cpu
                 msg = '%s: stdout of %s contains %r, which asl rejects (error %s)' % (tag, cmd, raw.strip(), num)
                 new = ';'
             if key not in reported:
@@ -1159,7 +1268,9 @@ def judge(ctx, cpu, tag, route, args, entries, mem, gt, items, lower):
             blocks_seen_bad.add(blk)      # a length change shifts everything behind it: one report per contiguous run
             x = diff[0]
             got = bytes(mem2.get(y, 0) for y in range(d.addr, d.addr + d.n) if y in mem2)
-            if d.kind == 'stray':
+            if load_key(d):
+                key = load_key(d)
+            elif d.kind == 'stray':
                 key = stray_key(d)
             elif d.kind == 'data':
                 key = 'bytes:%s:data-line:%s' % (cpu, shape(cpu, d.text))
